@@ -102,10 +102,86 @@ def apply(name: str, par: Dict[str, Any], ops: List[Any], model: bool):
     raise ValueError(name)
 
 
+def body_special(ctx: H.BaseCtx):
+    """Native only: nan / inf entries.  Reference = the element-wise formula in IEEE arithmetic (left fold for sums and products,
+    Leibniz sum for determinants).  A reference that is nan must give nan (a special value may not silently disappear); a
+    finite reference must be matched; an infinite reference is not judged (its sign depends on the grouping)."""
+    import itertools as it
+    import numpoly
+    from .. import special as SP
+
+    if ctx.symbolic:
+        return
+    case = ctx.case
+    k = case["k"]
+    vals = [SP.NAN, SP.INF, -SP.INF][k % 3]
+
+    def judge(got, ref, what):
+        got = numpy.asarray(got, dtype=float)
+        ref = numpy.asarray(ref, dtype=float)
+        if got.shape != ref.shape:
+            ctx.fail("shape", "%s: shape %s, expected %s" % (what, got.shape, ref.shape))
+            return
+        for g, r in zip(got.reshape(-1), ref.reshape(-1)):
+            if numpy.isnan(r) and not numpy.isnan(g):
+                ctx.fail("value", "%s: the element-wise formula gives nan, the result is %r" % (what, float(g)))
+                return
+            if numpy.isfinite(r) and not (numpy.isfinite(g) and abs(g - r) <= 1e-9 * max(1.0, abs(r))):
+                ctx.fail("value", "%s: %r, expected %r" % (what, float(g), float(r)))
+                return
+
+    with numpy.errstate(all="ignore"):
+        # determinants: nan entries only (with an infinite entry the outcome legitimately depends on how the sum is grouped:
+        # inf*(a-b) is inf where inf*a - inf*b is nan)
+        for n in (2, 3, 4) if numpy.isnan(vals) else ():
+            rng = random.Random(1000 * k + n)
+            mats = []
+            for _rep in range(6):
+                a = numpy.array([[float(rng.choice([0, 0, 1, 2, -1, 3])) for _ in range(n)] for _ in range(n)])
+                a[rng.randrange(n), rng.randrange(n)] = vals
+                mats.append(a)
+            # the nan sits only in minors of entries that are zero (for an expansion along the first/last row or column)
+            for line in (0, n - 1):
+                for j in range(n):
+                    a = numpy.array([[float(rng.choice([1, 2, -1, 3])) for _ in range(n)] for _ in range(n)])
+                    a[line, :] = 0.0
+                    a[line, j] = 1.0
+                    a[(line + 1) % n, j] = vals
+                    mats.append(a)
+                    mats.append(a.T.copy())
+            for a in mats:
+                ref = 0.0
+                for perm in it.permutations(range(n)):
+                    sign = 1
+                    for x in range(n):
+                        for y in range(x + 1, n):
+                            if perm[x] > perm[y]:
+                                sign = -sign
+                    term = float(sign)
+                    for row in range(n):
+                        term = term * a[row, perm[row]]
+                    ref = ref + term
+                try:
+                    d = numpoly.det(numpoly.polynomial(a))
+                    judge(numpoly.tonumpy(d), ref, "det of %s" % a.tolist())
+                    # (constant entries only: a zero *polynomial* entry stores no term at all, so 0*q0 times inf*q0 is never
+                    # formed and the sparse product is legitimately 0 there)
+                except Exception as e:
+                    ctx.unexpected_exception(e, "det (special values)")
+        v = numpy.array([2.0, vals, 0.0, -1.0, 0.5])
+        for fn, ref in (("sum", numpy.add.reduce(v)), ("prod", numpy.multiply.reduce(v)), ("cumsum", numpy.add.accumulate(v))):
+            try:
+                judge(numpoly.tonumpy(getattr(numpoly, fn)(numpoly.polynomial(v))), ref, "%s of %s" % (fn, v.tolist()))
+            except Exception as e:
+                ctx.unexpected_exception(e, fn + " (special values)")
+
+
 def body(ctx: H.BaseCtx):
     import numpoly
 
     case = ctx.case
+    if case.get("fn") == "special":
+        return body_special(ctx)
     ops = [ctx.build(s) for s in case["operands"]]
     mops = [ctx.model(s) for s in case["operands"]]
     snap = snapshot_args(ops)
@@ -258,6 +334,9 @@ def gen_cases(tier: str, seed: int) -> List[Dict]:
         spec = S.make_poly_spec("a", nm, [[0]] if k >= 3 else [[0], [1]], (k, k), rng, 16, zero_prob=0.1, literal_prob=0.0, mode="raw")
         add("det", [spec], tag="-%dx%d" % (k, k))
         add("linalg.det", [S.make_poly_spec("a", nm, [[1]], (k, k), rng, 16, zero_prob=0.2, literal_prob=0.0, mode="raw")], tag="-%dx%d" % (k, k))
+    for k in range(3):
+        add("special", [], {"k": k}, tag="-values")
+        cases[-1]["k"] = k
     add("det", [S.make_poly_spec("a", ("q0", "q1"), [[0, 0], [1, 0]], (2, 2, 2), rng, 8, zero_prob=0.1, literal_prob=0.2, mode="raw")], tag="-stack2x2")
     add("det", [S.make_poly_spec("a", ("q0",), [[0]], (2, 3, 3), rng, 12, zero_prob=0.2, literal_prob=0.2, mode="raw")], tag="-stack3x3")
     return cases
